@@ -267,6 +267,17 @@ class P8Formatter(BaseFormatter):
             else:
                 raise InvalidP8SectionError(section)
 
+        # Newer PICO-8 versions leave out the empty tail of a data section.
+        # Fill a short section up to its full size with the empty default, so
+        # that every region keeps its place in the cart's memory.
+        for name, full in (('gfx', Gfx), ('gff', Gff), ('map', Map),
+                           ('sfx', Sfx), ('music', Music), ('label', Gfx)):
+            section = getattr(new_game, name)
+            if section is not None:
+                default = full.empty(version=data.version)._data
+                if len(section._data) < len(default):
+                    section._data.extend(default[len(section._data):])
+
         return new_game
 
     @classmethod
